@@ -91,7 +91,7 @@ class Work:
         return r
 
     # ---------------------------------------------------------------- TLC
-    def tlc(self, module, cfg, workers=1, timeout=900, extra=None, simulate=None, env=None, heap=None):
+    def tlc(self, module, cfg, workers=1, timeout=900, extra=None, simulate=None, env=None, heap=None, allow_timeout=False):
         """Run TLC in the work dir; return a dict with counts, violation info and raw output."""
         md = tempfile.mkdtemp(prefix="md-", dir=self.dir)
         cmd = ["timeout", str(timeout), "tlc", "-workers", str(workers), "-noGenerateSpecTE", "-metadir", md,
@@ -121,7 +121,7 @@ class Work:
         res["post_false"] = "Postcondition" in out and "is false" in out
         res["deadlock"] = "Deadlock reached" in out
         res["ok"] = ("Model checking completed. No error has been found" in out) or (simulate is not None and r.returncode == 0)
-        if r.returncode == 124:
+        if r.returncode == 124 and not allow_timeout:
             raise Infra("TLC timed out after %ds: %s" % (timeout, res["cmd"]))
         fatal = [l for l in out.splitlines() if l.startswith("Error:") and "Invariant" not in l and "Postcondition" not in l
                  and "propert" not in l and "Deadlock" not in l and "behavior up to" not in l.lower()]
